@@ -28,7 +28,7 @@ func round3Rules() []*Rule {
 		{ID: "ERR-5", Props: []string{"C12", "C19", "C05"}, Min: 120,
 			Doc: "an error that may be non-nil does not vanish: on every path from an error-producing call to a return, that error is established nil, returned, handed to a call (wrapped), stored, or — once established non-nil — replaced by another error that is definitely non-nil; an error that is merely compared (`err == io.EOF`) and then replaced by nil is lost",
 			Run: runErr5},
-		{ID: "HDR-raw", Props: []string{"C15", "C08"}, Min: 1,
+		{ID: "HDR-raw", Props: []string{"C15", "C08", "C01", "C04"}, Min: 1,
 			Doc: "the header bytes re-read at the start of a transaction are interpreted by parseHeader and by nothing else (no second, unvalidated reading of header fields such as the in-header database size)",
 			Run: runHdrRaw},
 		{ID: "TOK-LOCAL", Props: []string{"C16"}, Min: 2,
@@ -37,7 +37,7 @@ func round3Rules() []*Rule {
 		{ID: "TOK-ADV", Props: []string{"C10", "C16", "C01"}, Min: 5,
 			Doc: "the tokenizer advances by exactly the token it read: on every path of one loop iteration the new position is the old one plus the bytes the reader consumed (offset of the slice handed to the reader + the length it returns), or plus the size of the rune for one-rune tokens and white space (assumed: a numeric literal accepted by strconv is ASCII) — a byte more swallows the character after the token, a byte less reads part of it twice",
 			Run: runTokAdv},
-		{ID: "IDENT-VERBATIM", Props: []string{"C10", "C16"}, Min: 1,
+		{ID: "IDENT-VERBATIM", Props: []string{"C10", "C16", "C01"}, Min: 1,
 			Doc: "package sql reports identifiers as written: its only case-changing call is the keyword lookup of the tokenizer (names are compared case-insensitively by package db, never rewritten by the parser)",
 			Run: runIdentVerbatim},
 		{ID: "CONV-exact", Props: []string{"C18"}, Min: 2,
@@ -46,6 +46,15 @@ func round3Rules() []*Rule {
 		{ID: "NEWCT", Props: []string{"C10", "C02", "C03", "C01"}, Min: 4,
 			Doc: "column constraints become the right keys: a column-level PRIMARY KEY is indexed (or, WITHOUT ROWID, made the key) on that column with the column's collation and the direction written on it; a column-level UNIQUE on that column, the column's collation, ascending",
 			Run: runNewCT},
+		{ID: "ROOT", Props: []string{"C01", "C02", "C03", "C04", "C13"}, Min: 6,
+			Doc: "every scan and lookup walks its own tree from its own root: in Table.Scan/Rowid and Index.Scan/ScanMin/ScanEq/ScanRange the page whose Iter/IterMin is called is the one just opened with openTable/openIndex(handle's db, handle's root) — not a page remembered from an earlier call or another table",
+			Run: runRoot},
+		{ID: "LIST-APPEND", Props: []string{"C16", "C10"}, Min: 3,
+			Doc: "the grammar's list productions add exactly the element they parsed: a list value of the parser is built only by append(list, element), a one-element literal, or handed on unchanged — never by a helper that may drop, merge or reorder elements",
+			Run: runListAppend},
+		{ID: "STATELESS", Props: []string{"C17", "C01", "C02", "C08"}, Min: 10,
+			Doc: "walking a b-tree leaves nothing behind: the iteration methods of the four page types (and their function literals) store into no field of the page, of the handle or of any other shared struct and update no map — so a scan that is stopped early, fails, or runs twice finds and leaves the same state",
+			Run: runStateless},
 		{ID: "DRV-10", Props: []string{"C08", "C19"}, Min: 2,
 			Doc: "a prepared statement remembers nothing between executions: its fields are written only when it is prepared, so every execution re-reads the schema under its own lock",
 			Run: runDrv10},
@@ -737,6 +746,29 @@ func runNewCT(c *Ctx) {
 			c.Check(goodCol && goodDir && goodColl, key, call.Pos(), "a column-level %s becomes a key on (%s, collation %s, direction %s); it must be the column itself with the column's own collation (SQLite orders the automatic index by it), %s", kind, col, orStr(coll, "none"), orStr(dir, "none"), map[bool]string{true: "ascending", false: "in the direction written on the constraint"}[wantDir == ""])
 		}
 	}
+	// a column-level UNIQUE is indexed whatever else the column is (an INTEGER PRIMARY KEY UNIQUE gets its automatic
+	// index too, and the numbering of the later ones depends on it)
+	for _, lp := range paths {
+		if lp.Stop == nil {
+			continue
+		}
+		uniq := false
+		for _, l := range lp.Lits {
+			if strings.HasSuffix(gen(l.Subject), ".Columns[i].Unique") && ((l.Op == token.EQL && l.C == "true") == l.Val) {
+				uniq = true
+			}
+		}
+		if !uniq {
+			continue
+		}
+		has := false
+		for _, e := range lp.Events {
+			if e.Kind == "call" && e.Name == "(*db.Schema).addIndex" && len(e.Args) > 1 && e.Args[1] == "const:false" {
+				has = true
+			}
+		}
+		c.Check(has, "column-level UNIQUE always indexed:"+pathSig(lp, 99), fn.Pos(), "%s", map[bool]string{true: "a UNIQUE column is offered to addIndex on this path", false: "a column declared UNIQUE gets no index on path [" + pathDesc(lp) + "]"}[has])
+	}
 	for _, k := range []string{"PRIMARY KEY", "UNIQUE", "WITHOUT ROWID PRIMARY KEY"} {
 		if !seen[k] {
 			c.Fail("column-level "+k, fn.Pos(), "a column-level %s no longer produces a key", k)
@@ -960,5 +992,152 @@ func runTokAdv(c *Ctx) {
 		}
 		done[key] = true
 		c.Check(len(rest) == 0, key, fn.Pos(), "%s", map[bool]string{true: "the position advances by exactly what was consumed", false: "after " + what + " the position is off by " + strings.Join(rest, " ") + " from the end of the token (with a multi-byte first rune the rune's size is not 1): the character after the token is swallowed or part of the token read again; path [" + pathDesc(lp) + "]"}[len(rest) == 0])
+	}
+}
+
+func runRoot(c *Ctx) {
+	p := c.P
+	for _, spec := range []struct{ fn, open, iface string }{
+		{"(*db.Table).Scan", "(*db.Database).openTable", "db.tableBtree."},
+		{"(*db.Table).Rowid", "(*db.Database).openTable", "db.tableBtree."},
+		{"(*db.Index).Scan", "(*db.Database).openIndex", "db.indexBtree."},
+		{"(*db.Index).ScanMin", "(*db.Database).openIndex", "db.indexBtree."},
+		{"(*db.Index).ScanEq", "(*db.Database).openIndex", "db.indexBtree."},
+		{"(*db.Index).ScanRange", "(*db.Database).openIndex", "db.indexBtree."},
+	} {
+		fn := findFn(p, spec.fn)
+		if fn == nil {
+			c.Undecided("anchor "+spec.fn, token.NoPos, "not found")
+			continue
+		}
+		t := &Termer{P: p}
+		paths, ok := EnumLits(fn.Blocks[0], 0, TabOpts{Termer: t, EventOf: callEvents(p)})
+		if !ok {
+			c.Undecided(spec.fn, fn.Pos(), "too many paths")
+			continue
+		}
+		recv := "p:" + fn.Params[0].Name()
+		n, bad := 0, ""
+		for _, lp := range paths {
+			for _, e := range lp.Events {
+				if e.Kind != "call" || !strings.HasPrefix(e.Name, spec.iface) || !(strings.HasSuffix(e.Name, ".Iter") || strings.HasSuffix(e.Name, ".IterMin")) {
+					continue
+				}
+				n++
+				if len(e.Args) == 0 || reOrd.ReplaceAllString(e.Args[0], "") != "call:"+spec.open+"#0" {
+					bad = fmt.Sprintf("%s is called on %s, not on the page opened from the handle's root", e.Name, e.Args[0])
+					continue
+				}
+				op := eventsOf(lp, "call", spec.open)
+				if len(op) != 1 || len(op[0].Args) != 2 || op[0].Args[0] != recv+".db" || op[0].Args[1] != recv+".root" {
+					bad = fmt.Sprintf("the tree is not opened with (%s.db, %s.root)", recv, recv)
+				}
+			}
+		}
+		if n == 0 {
+			c.Fail(spec.fn, fn.Pos(), "no b-tree iteration is started")
+			continue
+		}
+		c.Check(bad == "", spec.fn, fn.Pos(), "%s", orStr(bad, "the iteration starts at the page opened from the handle's own root"))
+	}
+}
+
+func runListAppend(c *Ctx) {
+	p := c.P
+	var parse *ssa.Function
+	for _, fn := range p.ModFuncs() {
+		if p.PkgShort(fn) == "sql" && fn.Name() == "Parse" && fn.Signature.Recv() != nil {
+			parse = fn
+		}
+	}
+	if parse == nil {
+		c.Undecided("anchor Parse", token.NoPos, "the generated parser's Parse method not found")
+		return
+	}
+	n := 0
+	for _, in := range instrs(parse) {
+		st, ok := in.(*ssa.Store)
+		if !ok {
+			continue
+		}
+		fa, ok := st.Addr.(*ssa.FieldAddr)
+		if !ok || namedTypeName(fa.X.Type()) != "yySymType" {
+			continue
+		}
+		if _, isSlice := st.Val.Type().Underlying().(*types.Slice); !isSlice {
+			continue
+		}
+		n++
+		key := fmt.Sprintf("list %s#%d", fieldName(fa), n)
+		v := st.Val
+		good, how := false, ""
+		switch x := v.(type) {
+		case *ssa.Call:
+			if b, ok := x.Call.Value.(*ssa.Builtin); ok && b.Name() == "append" {
+				good, how = true, "append"
+			} else {
+				how = "a call to " + calleeName(p, x)
+			}
+		case *ssa.Slice:
+			if _, ok := x.X.(*ssa.Alloc); ok {
+				good, how = true, "literal"
+			}
+		case *ssa.UnOp, *ssa.Const, *ssa.Phi:
+			good, how = true, "handed on"
+		default:
+			how = v.String()
+		}
+		c.Check(good, key, st.Pos(), "%s", map[bool]string{true: "built by " + how, false: "a list value of the grammar is produced by " + how + ": the list reported for a statement must contain exactly the elements that were parsed, in order"}[good])
+	}
+	if n == 0 {
+		c.Undecided("lists", parse.Pos(), "no list-valued grammar action found")
+	}
+}
+
+func runStateless(c *Ctx) {
+	p := c.P
+	pageTypes := map[string]bool{"tableLeaf": true, "tableInterior": true, "indexLeaf": true, "indexInterior": true}
+	n := 0
+	for _, fn := range p.ModFuncs() {
+		if p.PkgShort(fn) != "db" {
+			continue
+		}
+		top := fn
+		for top.Parent() != nil {
+			top = top.Parent()
+		}
+		if top.Signature.Recv() == nil || !pageTypes[namedTypeName(top.Signature.Recv().Type())] {
+			continue
+		}
+		n++
+		var bad []string
+		for _, in := range instrs(fn) {
+			switch x := in.(type) {
+			case *ssa.Store:
+				if fa, ok := x.Addr.(*ssa.FieldAddr); ok {
+					// fields of a struct this very function allocated are its own business
+					if a, isLocal := resolveCell(fa.X).(*ssa.Alloc); isLocal && a.Parent() == fn {
+						continue
+					}
+					bad = append(bad, fmt.Sprintf("stores into field %s (%s)", fieldName(fa), p.Pos(x.Pos())))
+				}
+				if ia, ok := x.Addr.(*ssa.IndexAddr); ok {
+					if fa, ok := stripLoad(ia.X).(*ssa.FieldAddr); ok {
+						bad = append(bad, fmt.Sprintf("stores into an element of field %s (%s)", fieldName(fa), p.Pos(x.Pos())))
+					}
+				}
+			case *ssa.MapUpdate:
+				bad = append(bad, fmt.Sprintf("updates a map (%s)", p.Pos(x.Pos())))
+			case *ssa.Call:
+				if b, ok := x.Call.Value.(*ssa.Builtin); ok && b.Name() == "delete" {
+					bad = append(bad, fmt.Sprintf("deletes from a map (%s)", p.Pos(x.Pos())))
+				}
+			}
+		}
+		sort.Strings(bad)
+		c.Check(len(bad) == 0, p.FnKey(fn), fn.Pos(), "%s", orStr(strings.Join(bad, "; ")+map[bool]string{true: ": state kept on the page or the handle survives a stopped or failed scan and changes what the next scan on this handle does", false: ""}[len(bad) > 0], "stores into no shared state"))
+	}
+	if n == 0 {
+		c.Undecided("page types", token.NoPos, "no methods of the b-tree page types found")
 	}
 }
